@@ -1,2 +1,14 @@
-#!/bin/sh
-exit 0
+#!/bin/bash
+# Offline setup after a fresh restore: build the gdbfacts driver (nightly, rustc_private, no deps)
+# and warm the dependency target cache + facts cache with one analysis of /repo's workspace.
+set -euo pipefail
+cd "$(dirname "$0")"
+export CARGO_NET_OFFLINE=true
+(cd driver && cargo +nightly build --release --offline 2>&1 | tail -2)
+python3 - <<'PY'
+import sys
+sys.path.insert(0, '.')
+from rules import factsdb
+d, info = factsdb.ensure_facts()
+print("facts:", d, info)
+PY
